@@ -14,6 +14,10 @@ if ! go build -o "$exe" ./cmd/check 2> ".work/build-$$.log"; then
   exit 2
 fi
 rm -f ".work/build-$$.log"
+if [ "$prop" = "C17" ] && [ "$mode" != "replay" ]; then
+  # the free-running race pass needs the -race twin, rebuilt from the current tree
+  go build -race -o bin/check-race ./cmd/check 2>/dev/null || rm -f bin/check-race
+fi
 case "$mode" in
   quick|thorough) "$exe" -prop "$prop" -tier "$mode"; rc=$? ;;
   replay) "$exe" -prop "$prop" -replay "$3"; rc=$? ;;
